@@ -122,6 +122,7 @@ type subscriber struct {
 	name      string
 	lag       bool
 	ws        *websocket.Conn
+	conn      net.Conn
 	probeSeen chan struct{}
 	start     chan struct{}
 	done      chan struct{}
@@ -205,7 +206,7 @@ func newHandlerSink(fast, lag int) *handlerSink {
 			return hs
 		}
 		ws.MaxPayloadBytes = 64 << 20
-		sb.ws = ws
+		sb.ws, sb.conn = ws, tc
 		hs.subs = append(hs.subs, sb)
 		go sb.run()
 	}
@@ -250,7 +251,7 @@ func (hs *handlerSink) finish() []section {
 		case <-time.After(85 * time.Second):
 			sb.note = "TIMEOUT"
 		}
-		sb.ws.Close()
+		sb.conn.Close() // not ws.Close(): its close frame would block, the server side never reads
 		out = append(out, section{name: sb.name, nw: len(sb.msgs), raw: bytes.Join(sb.msgs, nil), note: sb.note})
 	}
 	return out
